@@ -263,6 +263,18 @@ func (reader *CollectionReader) StartRead(ctx context.Context) {
 			if collectionSeekPositionMap != nil {
 				seekPositions = lo.Values(collectionSeekPositionMap)
 				channelStartTsMap = reader.channelStartTs[info.ID]
+				// a channel of the collection without a persisted position (the process died while the start
+				// positions were being written one by one) starts from the collection's start position, not
+				// from the latest message
+				for _, v := range info.StartPositions {
+					if _, ok := collectionSeekPositionMap[v.GetKey()]; !ok {
+						seekPositions = append(seekPositions, &msgstream.MsgPosition{
+							ChannelName: v.GetKey(),
+							MsgID:       v.GetData(),
+							Timestamp:   info.CreateTime,
+						})
+					}
+				}
 			} else if dbCollections, ok := repeatedCollectionName[info.DbId]; ok && lo.Contains(dbCollections, info.Schema.Name) {
 				log.Warn("server warn: find the repeated collection, the latest collection will use the collection start position.", zap.String("name", info.Schema.Name), zap.Int64("collection_id", info.ID))
 				appendSeekPositionFromStartPosition()
